@@ -1,2 +1,32 @@
-(* placeholder while the proofs are being written; replaced below *)
-From SV Require Import C03.Simplex.
+(* C03 - LP verdicts and optima are exact (simplex); interior point is right when its gate says OPTIMAL.
+   Property theorems (each is `exact` of a lemma proved under coq/C03/). *)
+From Coq Require Import List QArith Qabs Bool.
+From SV Require Import C03.Simplex C03.SimplexCorr C03.LPSpec C03.Cert C03.CertProofs.
+Import ListNotations.
+Open Scope Q_scope.
+
+(* ---- per-run certificates: the boolean checkers evaluated by the cert_* lemmas of every check run *)
+Theorem C03_cert_optimal_sound : forall tol minimize c A b x obj y,
+  cert_optimal_check tol minimize c A b x obj y = true ->
+  lp_optimal_tol tol minimize c A b x /\ Qabs (obj - dot c x) <= tol.
+Proof. exact cert_optimal_sound. Qed.
+Print Assumptions C03_cert_optimal_sound.
+
+Theorem C03_cert_optimal_sound_exact : forall minimize c A b x obj y,
+  cert_optimal_check 0 minimize c A b x obj y = true ->
+  lp_optimal minimize c A b x /\ obj == dot c x.
+Proof. exact cert_optimal_sound_exact. Qed.
+Print Assumptions C03_cert_optimal_sound_exact.
+
+Theorem C03_cert_farkas_sound : forall c A b y, farkas_check c A b y = true -> lp_infeasible A b.
+Proof. exact farkas_sound. Qed.
+Print Assumptions C03_cert_farkas_sound.
+
+Theorem C03_cert_ray_sound : forall minimize c A b x r,
+  ray_check minimize c A b x r = true -> lp_unbounded minimize c A b.
+Proof. exact ray_sound. Qed.
+Print Assumptions C03_cert_ray_sound.
+
+Theorem C03_cert_case_sound : forall k, cert_case_check k = true -> case_claim k.
+Proof. exact cert_case_sound. Qed.
+Print Assumptions C03_cert_case_sound.
